@@ -4,9 +4,15 @@ Correspondence with M-Sort (lean/DefconModel/NameSort.lean) on ORDERED results +
 (result multiset == input multiset, two calls agree, input list / descriptors / font unchanged,
 no notification posted, no exception) evaluated on font.unicodeData.sortGlyphNames itself.
 
-A case = one font (glyph names with their unicode lists) + a list of sort calls on it.  The
-font-dependent look-ups the sort methods use are tabulated from the REAL UnicodeData for the names of
-the case and handed to the Lean model as its `Env` parameter (first driver line of every case).
+A case = one font (glyph names with their unicode lists) + a list of sort calls on it.
+
+Round 3: the font-dependent look-ups the sort methods use are no longer tabulated from the real UnicodeData.  The
+first driver line of a case is the WORLD - glyph names and code points as the case declares them, the UnicodeData dict
+in its own order, and the facts of the Unicode database (fontTools.unicodedata, not defcon.tools.unicodeTools) about
+the code points that occur - and the Lean model derives every look-up from it (lean/DefconModel/NameLookups.lean:
+envOf, sortFont) with the open/close tables regenerated from the code.  Beside the sort calls a case asks the real
+UnicodeData and the model about every name of the font and a set of probe names (`look`), allocates forced unicodes
+(`forced`), reads them back (`byforced`) and compares the dict and the forced tables (`state`).
 """
 import ast
 import copy
@@ -31,7 +37,14 @@ RULE = ("one font (3-30 glyphs drawn from a structured pool: letters, accented l
         "of 0-16 names drawn from the font and from outside it, with duplicates, and 0-3 descriptors over all 10 public "
         "types (+ the 5 private ones in a tenth of the calls), ascending/descending/omitted, pseudo-unicodes "
         "on/off/omitted; non-trivial = a call with >= 2 distinct names whose result order differs from the input "
-        "order; distinct = distinct case dicts")
+        "order; distinct = distinct case dicts.  Round 3: every case also asks all 15 public look-ups (unicode, "
+        "pseudo-unicode, category/script/block and close/open relative and decomposition base with and without "
+        "pseudo-unicodes, `in font`) about EVERY name of the font, 3-8 probe names (names outside the font, a.suffix, "
+        "suffix chains, ligatures, ligatures with a suffix, ligatures whose parts are suffixed, names behind a leading "
+        "'.' or '_', odd separators, the empty name) and up to 6 outside names of its sort calls, 6 names per line, "
+        "between the sorts or after them (always after them in a font sorted while unread; first thing on a re-opened "
+        "font otherwise in 7 of 10); three cases in ten allocate 1-4 forced unicodes between the sorts and read 0-2 "
+        "back; half the cases end by comparing the UnicodeData dict and both forced tables")
 ASSUMPTIONS = [
     "sort descriptors use the built-in types only (type 'custom' runs a user function: out of scope); private types "
     "(_generalType, _whitespaceCategory, _containerPartners, _manualGroups, _notdef) are compared with the model but "
@@ -48,9 +61,22 @@ ASSUMPTIONS = [
     "descriptor lists are shorter than CPython's recursion limit (every descriptor nests the block list one level "
     "deeper; about 990 descriptors raise RecursionError); generated lists have 0-3",
     "names are str objects; the lists are Python lists",
+    "round 3: the cmap handed to the model is the UnicodeData dict of the real font read ONCE, before the first op (its "
+    "order depends on the history of the font, which is C09's matter); glyph names and their code points are the ones "
+    "the case declares, not read back",
+    "round 3: `\" \" not in decomposition` is modelled as `fewer than two fields` (asserted for every tabulated code "
+    "point); the recursion of unicodeTools.decompositionBase gets fuel 12 (the longest chain of Unicode has 3 links: U+1F82) and "
+    "that of _findAvailablePUACode fuel 900 (CPython's recursion limit ends it near 990 allocated names)",
+    "round 3: the call table Gen/SortCalls.lean follows `self.<name>` references inside class UnicodeData only (the "
+    "extractor fails closed on getattr/setattr/aliasing of self); what Font.__getitem__ / __contains__ do when a sort "
+    "asks them is judged by the oracle on the real objects (font, cmap and forced tables unchanged)",
 ]
 TRUSTED = [
-    "look-up parameters of the model are tabulated per case from the real UnicodeData (harness/props/c20.py:tabulate)",
+    "round 3: the model computes the look-ups itself; what is tabulated per case is the world: declared glyph names and "
+    "code points, the UnicodeData dict of the real font, and category/script/block/decomposition of the code points that "
+    "occur from fontTools.unicodedata (harness/props/c20.py:world_line, db_facts)",
+    "lean/DefconModel/Gen/OpenClose.lean (pair text from the AST of unicodeTools.py + the dicts of the imported module) and "
+    "Gen/SortCalls.lean (self-references of every method of UnicodeData, from the AST) are regenerated on every run",
     "lean/DefconModel/Gen/SortTables.lean is regenerated from the imported defcon modules and the source AST on "
     "every run (constants, type->method dispatch, canned descriptor lists)",
 ]
@@ -332,7 +358,72 @@ def gen_case(rng):
             a, b = rng.sample(encoded, 2)
             if b[1][0] not in a[1]:
                 a[1] = a[1] + [b[1][0]]
+    add_lookup_ops(rng, case)
     return case
+
+
+def gen_probes(rng, font):
+    """names to ask the look-ups about beside the font's own: names outside the font, suffix chains, ligature names
+    with suffixed parts, names hidden behind a leading "." or "_", mostly built on names the font has"""
+    fnames = [g[0] for g in font]
+    plain = [n for n in fnames if "." not in n and "_" not in n] or ["a"]
+    outside = [n for n in LETTERS + BRACKETS + MANUAL + OTHER + SPECIAL if n not in fnames]
+    probes = []
+    for _ in range(rng.choice([3, 4, 6, 8])):
+        a, b = rng.choice(plain), rng.choice(plain)
+        s1, s2 = rng.choice(SUFFIXES), rng.choice(SUFFIXES)
+        r = rng.random()
+        if r < 0.14:
+            probes.append(rng.choice(outside) if outside else a + ".zz")
+        elif r < 0.30:
+            probes.append(a + "." + s1)                                   # a.alt
+        elif r < 0.42:
+            probes.append(a + "." + s1 + "." + s2)                        # suffix chain
+        elif r < 0.54:
+            probes.append(a + "_" + b)                                    # ligature
+        elif r < 0.66:
+            probes.append(a + "_" + b + "." + s1)                         # ligature with a suffix
+        elif r < 0.78:
+            probes.append(a + "." + s1 + "_" + b + rng.choice(["", "." + s2]))   # ligature whose parts are suffixed
+        elif r < 0.84:
+            probes.append(rng.choice(["_", "."]) + a + rng.choice(["", "." + s1, "_" + b]))
+        elif r < 0.90:
+            probes.append(rng.choice(fnames) + rng.choice([".", "_", "..", "._", "_."]) + rng.choice(["", s1, b]))
+        elif r < 0.95:
+            probes.append(rng.choice(fnames).split(".")[0].split("_")[0])  # the stem of a name of the font
+        else:
+            probes.append(rng.choice(["", ".", "_", "a.", "_.a", "a__b", "A.a_b.c"]))
+    return probes
+
+
+def add_lookup_ops(rng, case):
+    """round 3: ask the real look-ups (and the model, which derives them from names + cmap + Unicode tables) about every
+    name of the font and the probes; now and then allocate forced unicodes between the sorts"""
+    font = case["font"]
+    fnames = [g[0] for g in font]
+    ops = case["ops"]
+    asked = fnames + gen_probes(rng, font)
+    called = [n for op in ops for n in op.get("names", []) if n not in fnames]
+    asked += list(dict.fromkeys(called))[:6]
+    # a handful of names per op, so that a diverging answer shrinks to a short line
+    looks = [dict(look=asked[j:j + 6]) for j in range(0, len(asked), 6)]
+    if case.get("lazy") or (case.get("from_disk") and rng.random() < 0.3):
+        ops.extend(looks)                    # a font sorted while unread is asked afterwards (asking reads the glyphs)
+    else:
+        at = rng.randrange(len(ops) + 1)
+        spread = rng.random() < 0.5          # all in one place, or between the sorts (and the allocations below)
+        for look in looks:
+            ops.insert(rng.randrange(len(ops) + 1) if spread else at, look)
+            at += 1
+    if rng.random() < 0.3:
+        pool = asked
+        for _ in range(rng.randint(1, 4)):
+            ops.insert(rng.randrange(len(ops) + 1), dict(forced=rng.choice(pool)))
+        for _ in range(rng.randint(0, 2)):
+            v = rng.choice([0xE000, 0xE001, 0xE002, 0xF8FF, 0xF0000] + [u for g in font for u in g[1]][:3])
+            ops.insert(rng.randrange(len(ops) + 1), dict(byforced=v))
+    if rng.random() < 0.5:
+        ops.append(dict(state=1))
 
 
 def generate(rng, tier):
@@ -365,6 +456,15 @@ def neighbourhood(case, step, rng):
     i = max(0, min(len(case["ops"]) - 1, step - 1))
     op = case["ops"][i]
     fnames = [g[0] for g in case["font"]]
+    if "names" not in op:
+        # a look-up answered otherwise than the model derives it: sort the names it was asked about, every type
+        asked = list(op.get("look", [])) or ([op["forced"]] if "forced" in op else []) or fnames
+        vs = _variants(fnames, [], rng)
+        for j in range(0, len(asked), 8):
+            vs += _variants(asked[j:j + 8] + fnames[:4], [], rng)[:44]
+        for j in range(0, len(vs), 12):
+            yield dict(case, ops=vs[j:j + 12])
+        return
     yield dict(case, ops=[op])
     vs = _variants(op["names"], op["descs"], rng)
     vs += _variants(fnames, op["descs"], rng)
@@ -404,6 +504,13 @@ def search(rng, tier, broken):
 # real font + tabulation of the look-ups
 # ---------------------------------------------------------------------------------------
 
+def _mkdtemp():
+    # scratch UFOs on a memory file system when there is one (a busy disk makes the 140 saves of a quick run the
+    # slowest part of it); always a fresh directory, removed by the caller
+    shm = "/dev/shm"
+    return tempfile.mkdtemp(prefix="c20_", dir=shm if os.path.isdir(shm) and os.access(shm, os.W_OK) else None)
+
+
 def build_font(case, tmp=None):
     from defcon import Font
     font = Font()
@@ -424,9 +531,44 @@ def build_font(case, tmp=None):
 def case_names(case):
     seen = {}
     for op in case["ops"]:
-        for n in op["names"]:
+        for n in op.get("names", []):
             seen[n] = 1
     return list(seen)
+
+
+def db_facts(v):
+    """what the Unicode database (fontTools.unicodedata, NOT defcon.tools.unicodeTools) says about one code point"""
+    from fontTools import unicodedata as ucd
+    c = chr(v)
+    dec = ucd.decomposition(c)
+    compat = dec.startswith("<")
+    fields = [f for f in dec.split(" ") if f and not f.startswith("<")]
+    parts = [int(f, 16) for f in fields]
+    if not compat:
+        # the model reads `" " not in decomposition` as `fewer than two parts`
+        assert (" " in dec) == (len(parts) >= 2), (v, dec)
+    return [v, ucd.category(c), ucd.script_name(ucd.script(c), default="Unknown"), ucd.block(c), compat, parts]
+
+
+def world_line(font, case):
+    """the model's parameters: glyph names and their code points as the case declares them, the UnicodeData dict in its
+    own order (read once, from the real object), and the Unicode-database facts of the code points that occur"""
+    ud = font.unicodeData
+    declared = [[g[0]] + [int(u) for u in g[1]] for g in case["font"]]
+    cmap = [[int(k)] + list(v) for k, v in ud.items()]
+    todo = [u for g in declared for u in g[1:]] + [r[0] for r in cmap]
+    rows, seen = [], set()
+    while todo:
+        v = todo.pop()
+        if v in seen or not (0 <= v <= 0x10FFFF):
+            continue
+        seen.add(v)
+        row = db_facts(v)
+        rows.append(row)
+        todo.extend(row[5])
+    rows.sort()
+    return [Atom("world"), [Atom("names")] + [g[0] for g in declared], [Atom("unicodes")] + declared,
+            [Atom("cmap")] + cmap, [Atom("db")] + rows]
 
 
 def tabulate(font, names):
@@ -466,17 +608,102 @@ def _flag(x, default):
 
 def model_lines(case):
     # the same font the implementation run sorts (a re-opened UFO lists glyphs sharing a code point in another order)
-    tmp = tempfile.mkdtemp(prefix="c20_") if case.get("from_disk") else None
+    tmp = _mkdtemp() if case.get("from_disk") else None
     try:
         font = build_font(case, tmp)
-        lines = [tabulate(font, case_names(case))]
+        lines = [world_line(font, case)]
     finally:
         if tmp is not None:
             shutil.rmtree(tmp, ignore_errors=True)
     for op in case["ops"]:
-        lines.append([Atom("sort"), list(op["names"]),
-                      [[Atom(d[0]), _flag(d[1], True), _flag(d[2], False)] for d in op["descs"]]])
+        if "look" in op:
+            lines.append([Atom("look")] + list(op["look"]))
+        elif "forced" in op:
+            lines.append([Atom("forced"), op["forced"]])
+        elif "byforced" in op:
+            lines.append([Atom("byforced"), int(op["byforced"])])
+        elif "state" in op:
+            lines.append([Atom("state")])
+        else:
+            lines.append([Atom("sort"), list(op["names"]),
+                          [[Atom(d[0]), _flag(d[1], True), _flag(d[2], False)] for d in op["descs"]]])
     return lines
+
+
+def _answer(f, *a):
+    try:
+        return f(*a)
+    except Exception as e:  # noqa
+        return _Raised(type(e).__name__)
+
+
+class _Raised(object):
+    def __init__(self, name):
+        self.name = name
+
+
+def _enc(v, kind):
+    if isinstance(v, _Raised):
+        return [Atom("err"), Atom(v.name)]
+    if kind == "opt":
+        return opt(v)
+    if kind == "bool":
+        return bool(v)
+    return v if isinstance(v, str) else repr(v)
+
+
+def look_row(font, ud, n):
+    """the real answers of every public look-up about one name, in the order of the model's `(row …)`"""
+    row = [Atom("row"), _enc(_answer(ud.unicodeForGlyphName, n), "opt"), _enc(_answer(ud.pseudoUnicodeForGlyphName, n), "opt")]
+    for look in (ud.categoryForGlyphName, ud.scriptForGlyphName, ud.blockForGlyphName):
+        for flag in (False, True):
+            row.append(_enc(_answer(look, n, flag), "str"))
+    for look in (ud.closeRelativeForGlyphName, ud.openRelativeForGlyphName):
+        for flag in (False, True):
+            row.append(_enc(_answer(look, n, flag), "opt"))
+    for flag in (False, True):
+        row.append(_enc(_answer(ud.decompositionBaseForGlyphName, n, flag), "str"))
+    row.append(_enc(_answer(lambda: n in font), "bool"))
+    return row
+
+
+def other_op(font, ud, op, stats):
+    """the ops that are not sort calls, on the real objects"""
+    if "look" in op:
+        stats["lookup.names"] = stats.get("lookup.names", 0) + len(op["look"])
+        fkeys = set(font.keys())
+        for n in op["look"]:
+            kind = "in_font" if n in fkeys else "outside"
+            if n not in fkeys and "_" in n.split(".")[0] and "." in n.split("_")[0]:
+                kind = "ligature_with_suffixed_part"
+            elif n not in fkeys and n.count(".") >= 2:
+                kind = "suffix_chain"
+            stats["lookup." + kind] = stats.get("lookup." + kind, 0) + 1
+        rows = [look_row(font, ud, n) for n in op["look"]]
+        for r in rows:
+            if r[2] != r[1]:
+                stats["lookup.pseudo_differs"] = stats.get("lookup.pseudo_differs", 0) + 1
+            if r[10] != Atom("none") or r[12] != Atom("none"):
+                stats["lookup.with_relative"] = stats.get("lookup.with_relative", 0) + 1
+        for n, r in zip(op["look"], rows):
+            if r[14] != n:
+                stats["lookup.with_decomposition_base"] = stats.get("lookup.with_decomposition_base", 0) + 1
+        return [Atom("rows")] + rows
+    if "forced" in op:
+        before = len(ud._glyphNameToForcedUnicode)
+        v = _answer(ud.forcedUnicodeForGlyphName, op["forced"])
+        stats["forced.calls"] = stats.get("forced.calls", 0) + 1
+        if len(ud._glyphNameToForcedUnicode) > before:
+            stats["forced.allocated"] = stats.get("forced.allocated", 0) + 1
+        return [Atom("err"), Atom(v.name)] if isinstance(v, _Raised) else [Atom("ok"), v]
+    if "byforced" in op:
+        v = _answer(ud.glyphNameForForcedUnicode, op["byforced"])
+        return [Atom("err"), Atom(v.name)] if isinstance(v, _Raised) else [Atom("ok"), opt(v)]
+    if "state" in op:
+        return [Atom("state"), [Atom("cmap")] + [[int(k)] + list(v) for k, v in ud.items()],
+                [Atom("forced")] + [[k, int(v)] for k, v in ud._glyphNameToForcedUnicode.items()],
+                [Atom("codes")] + [[int(k), v] for k, v in ud._forcedUnicodeToGlyphName.items()]]
+    raise ValueError("unknown op %r" % (op,))
 
 
 # ---------------------------------------------------------------------------------------
@@ -504,6 +731,7 @@ def snapshot(font, load=True):
     return dict(glyphs=glyphs, order=list(font.glyphOrder), dirty=(bool(font.dirty), bool(layer.dirty), bool(ud.dirty)),
                 cmap=sorted((k, list(v)) for k, v in ud.items()), lib=copy.deepcopy(dict(font.lib)),
                 forced=[ud.glyphNameForForcedUnicode(v) for v in range(0xE000, 0xE020)],
+                forced_tables=(sorted(ud._glyphNameToForcedUnicode.items()), sorted(ud._forcedUnicodeToGlyphName.items())),
                 layers=list(font.layers.layerOrder))
 
 
@@ -562,7 +790,7 @@ def judge(font, op, result, result2, names_after, names_before, descs_after, des
 
 
 def run_impl(case):
-    tmp = tempfile.mkdtemp(prefix="c20_") if case.get("from_disk") else None
+    tmp = _mkdtemp() if case.get("from_disk") else None
     try:
         return _run_impl(case, tmp)
     finally:
@@ -598,7 +826,14 @@ def _run_impl(case, tmp):
                        ("font.close_relative_chain", chained)):
         if group:
             stats[key] = 1
+    unread = None
     for i, op in enumerate(case["ops"]):
+        if "names" not in op:
+            if lazy and unread is None and "look" in op:
+                unread = [n for n in sorted(fkeys) if n not in font.layers.defaultLayer._glyphs]
+            outs.append(other_op(font, ud, op, stats))
+            firsts.append(None)
+            continue
         names = list(op["names"])
         names0 = list(names)
         descs = mk_descs(op["descs"])
@@ -669,8 +904,9 @@ def _run_impl(case, tmp):
     if lazy:
         # "gives the same answer on repeated calls": reading glyphs does not change the font, so the same calls made
         # once every glyph has been read must answer what they answered while the glyphs were unread
-        unread = [n for n in sorted(fkeys) if n not in font.layers.defaultLayer._glyphs]
-        stats["font.unread_glyphs_at_the_end"] = len(unread)
+        if unread is None:
+            unread = [n for n in sorted(fkeys) if n not in font.layers.defaultLayer._glyphs]
+        stats["font.unread_glyphs_at_the_end"] = len(unread)        # … of the sort calls
         for n in sorted(fkeys):
             font[n]
         for i, op in enumerate(case["ops"]):
@@ -780,6 +1016,138 @@ def _dispatch_from_ast(path):
     return table, canned[0][1], canned[1][1]
 
 
+def _write_gen(lean_dir, name, text, changed):
+    path = os.path.join(lean_dir, "DefconModel", "Gen", name)
+    os.makedirs(os.path.dirname(path), exist_ok=True)
+    old = open(path).read() if os.path.exists(path) else None
+    if old != text:
+        with open(path, "w") as f:
+            f.write(text)
+        changed.append("Gen/" + name)
+
+
+def _extract_open_close(repo, lean_dir, ut, changed):
+    """Gen/OpenClose.lean: the (open, close) pairs as they stand in the TEXT of unicodeTools._openClosePairText (read from
+    the source AST and parsed here, apart from the module's own loop) and the two dicts the imported module built from
+    it.  Props/C20.lean proves that the model of the loading loop turns the former into the latter."""
+    path = os.path.join(repo, "Lib", "defcon", "tools", "unicodeTools.py")
+    if os.path.realpath(ut.__file__).replace(".pyc", ".py") != os.path.realpath(path):
+        raise ValueError("unicodeTools imported from %s, not from %s" % (ut.__file__, path))
+    tree = ast.parse(open(path).read())
+    text = None
+    for node in tree.body:
+        if isinstance(node, ast.Assign) and len(node.targets) == 1 and isinstance(node.targets[0], ast.Name) \
+                and node.targets[0].id == "_openClosePairText":
+            if not (isinstance(node.value, ast.Constant) and isinstance(node.value.value, str)):
+                raise ValueError("_openClosePairText is not a string literal")
+            text = node.value.value
+    if text is None:
+        raise ValueError("_openClosePairText not found")
+    values = []
+    for line in text.splitlines():
+        line = line.split("#")[0].strip()
+        if not line:
+            continue
+        fields = line.split(";")
+        if len(fields) != 3:
+            raise ValueError("open/close line with %d fields: %r" % (len(fields), line))
+        values.append(int(fields[0], 16))
+    if len(values) % 2:
+        raise ValueError("odd number of open/close lines")
+    pairs = [(values[i], values[i + 1]) for i in range(0, len(values), 2)]
+    for d in (ut._openToClose, ut._closeToOpen):
+        if not all(isinstance(k, int) and isinstance(v, int) and k >= 0 and v >= 0 for k, v in d.items()):
+            raise ValueError("open/close dict holds a non-natural")
+
+    def plist(items):
+        return _llist(["(%d, %d)" % (a, b) for a, b in items], 8)
+    body = ["/-\nREGENERATED by harness/props/c20.py:extract from the working tree of defcon on every check - do not edit.\n"
+            "`pairs`: the (open, close) lines of the text `_openClosePairText` of Lib/defcon/tools/unicodeTools.py, in text order\n"
+            "(from the source AST); `openToClose` / `closeToOpen`: the dicts of the imported module, in dict order.\n-/",
+            "namespace DefconModel.Gen.OpenClose\n",
+            "def pairs : List (Nat × Nat) := " + plist(pairs) + "\n",
+            "def openToClose : List (Nat × Nat) := " + plist(list(ut._openToClose.items())) + "\n",
+            "def closeToOpen : List (Nat × Nat) := " + plist(list(ut._closeToOpen.items())) + "\n",
+            "end DefconModel.Gen.OpenClose\n"]
+    _write_gen(lean_dir, "OpenClose.lean", "\n".join(body), changed)
+    return dict(openClosePairs=len(pairs), openToClose=len(ut._openToClose), closeToOpen=len(ut._closeToOpen))
+
+
+def _self_refs(fn):
+    """names X of every `self.X` in a method body, `unicodeTools.X`, module-level helpers called, and pseudo names for the
+    other uses of `self` (`<super>`, `<item:Load|Store|Del>`, `<contains>`).  Fails closed on a use it does not know."""
+    parents = {}
+    for p in ast.walk(fn):
+        for c in ast.iter_child_nodes(p):
+            parents[c] = p
+    refs = set()
+    for n in ast.walk(fn):
+        if isinstance(n, ast.Name) and n.id == "self":
+            par = parents.get(n)
+            if isinstance(par, ast.Attribute) and par.value is n:
+                refs.add(par.attr)
+            elif isinstance(par, ast.Call) and isinstance(par.func, ast.Name) and par.func.id == "super" and n in par.args:
+                refs.add("<super>")
+            elif isinstance(par, ast.Subscript) and par.value is n:
+                refs.add("<item:%s>" % type(par.ctx).__name__)
+            elif isinstance(par, ast.Compare) and all(isinstance(o, (ast.In, ast.NotIn)) for o in par.ops) \
+                    and n in par.comparators:
+                refs.add("<contains>")
+            else:
+                raise ValueError("%s uses `self` in a way the call table does not know: %s" % (
+                    fn.name, ast.dump(par)[:120] if par is not None else None))
+        elif isinstance(n, ast.Attribute) and isinstance(n.value, ast.Name) and n.value.id == "unicodeTools":
+            refs.add("unicodeTools." + n.attr)
+        elif isinstance(n, ast.Name) and n.id in ("getattr", "setattr", "delattr", "vars", "eval", "exec", "globals", "locals"):
+            raise ValueError("%s uses %s(): the call table cannot follow it" % (fn.name, n.id))
+        elif isinstance(n, ast.Call) and isinstance(n.func, ast.Name) and n.func.id.startswith("_"):
+            refs.add(n.func.id)
+    return sorted(refs)
+
+
+def _extract_calls(src, lean_dir, changed):
+    """Gen/SortCalls.lean: for every method of UnicodeData what it refers to on `self` (methods, attributes, dict access),
+    in `unicodeTools` and among the module's private helpers; properties are followed to their getter."""
+    tree = ast.parse(open(src).read())
+    cls = [n for n in tree.body if isinstance(n, ast.ClassDef) and n.name == "UnicodeData"]
+    if len(cls) != 1:
+        raise ValueError("class UnicodeData not found")
+    rows, methods = [], []
+    for node in cls[0].body:
+        if isinstance(node, ast.FunctionDef):
+            rows.append((node.name, _self_refs(node)))
+            methods.append(node.name)
+        elif isinstance(node, ast.Assign) and isinstance(node.value, ast.Call) and isinstance(node.value.func, ast.Name) \
+                and node.value.func.id == "property":
+            if len(node.targets) != 1 or not isinstance(node.targets[0], ast.Name):
+                raise ValueError("property assignment with an unexpected target")
+            fns = [a.id for a in node.value.args if isinstance(a, ast.Name)] + \
+                  [k.value.id for k in node.value.keywords if k.arg in ("fget", "fset", "fdel") and isinstance(k.value, ast.Name)]
+            if len(fns) != len(node.value.args) + len([k for k in node.value.keywords if k.arg != "doc"]):
+                raise ValueError("property(...) with an argument that is not a plain function name")
+            rows.append((node.targets[0].id, sorted(fns)))
+        elif isinstance(node, (ast.Assign, ast.Expr)):
+            continue
+        else:
+            raise ValueError("unexpected statement in class UnicodeData: %s" % type(node).__name__)
+    names = [r[0] for r in rows]
+    if len(set(names)) != len(names):
+        raise ValueError("a name is defined twice in class UnicodeData")
+    body = ["/-\nREGENERATED by harness/props/c20.py:extract from the source AST of Lib/defcon/objects/uniData.py on every check -\n"
+            "do not edit.  `refs`: for every method (and property) of class UnicodeData, in source order, what its body refers to:\n"
+            "`X` for `self.X` (method, attribute, inherited), `unicodeTools.X`, `_helper` for a module-level helper it calls,\n"
+            "`<super>` for super(UnicodeData, self), `<item:Load|Store|Del>` for self[...], `<contains>` for `... in self`;\n"
+            "a property refers to its getter.\n-/",
+            "namespace DefconModel.Gen.SortCalls\n",
+            "def methods : List String := " + _llist([_lstr(m) for m in methods], 4) + "\n",
+            "def refs : List (String × List String) := " + _llist(
+                ["(%s, [%s])" % (_lstr(a), ", ".join(_lstr(x) for x in b)) for a, b in rows], 1) + "\n",
+            "end DefconModel.Gen.SortCalls\n"]
+    _write_gen(lean_dir, "SortCalls.lean", "\n".join(body), changed)
+    return dict(unicodeDataMethods=len(methods))
+
+
+
 def extract(repo, lean_dir):
     import importlib
     ut = importlib.import_module("defcon.tools.unicodeTools")
@@ -828,14 +1196,10 @@ def extract(repo, lean_dir):
     body.append("def cannedSecondTypes : List String := [" + ", ".join(_lstr(x) for x in canned2) + "]\n")
     body.append("end DefconModel.Gen.SortTables\n")
     text = "\n".join(body)
-    path = os.path.join(lean_dir, "DefconModel", "Gen", "SortTables.lean")
-    os.makedirs(os.path.dirname(path), exist_ok=True)
-    old = open(path).read() if os.path.exists(path) else None
     changed = []
-    if old != text:
-        with open(path, "w") as f:
-            f.write(text)
-        changed.append("Gen/SortTables.lean")
+    _write_gen(lean_dir, "SortTables.lean", text, changed)
+    oc_info = _extract_open_close(repo, lean_dir, ut, changed)
+    calls_info = _extract_calls(src, lean_dir, changed)
     if "Unknown" not in scripts or "Cn" not in cats:
         raise ValueError("the default script/category of a name without unicode is not in the ordered tables")
     if uncovered:
@@ -843,7 +1207,7 @@ def extract(repo, lean_dir):
     info = dict(obligations=TABLE_OBLIGATIONS, tables=dict(
         orderedScripts=len(ut.orderedScripts), orderedBlocks=len(ut.orderedBlocks),
         orderedCategories=len(ut.orderedCategories), manualGroups=len(udm._manualSortGroups),
-        typeToMethod=len(table), cannedFirst=len(canned1), cannedSecond=len(canned2)),
+        typeToMethod=len(table), cannedFirst=len(canned1), cannedSecond=len(canned2), **dict(oc_info, **calls_info)),
         code_points_enumerated_for_script_category_coverage=0x110000)
     return changed, info
 
